@@ -187,7 +187,7 @@ fn extract_class(
         .values()
         .sorted_by_key(|(pos, stmt)| {
             let is_function = matches!(stmt, Core::FunDef { .. } | Core::FunDefOp { .. });
-            (*pos, is_function, format!("{stmt}"))
+            (*pos, is_function, format!("{stmt:?}"))
         })
         .map(|(_, stmt)| stmt.clone())
         .collect();
